@@ -464,6 +464,9 @@ def _explore_program(ctx, res, ex, family, pname, progs, target, full, budget, s
                 break
     for k, v in stats.items():
         res.count("preempt:" + k, v)
+    if stats.get("owner_value_replaced_in_block"):
+        fid = c16_sched.FINDING_OVERWRITE          # region of the recorded finding: counted, not reported
+        res.known_seen[fid] = res.known_seen.get(fid, 0) + stats["owner_value_replaced_in_block"]
     return total, found, exhaustive
 
 
